@@ -203,4 +203,4 @@ def examples(tier):
     return out
 
 
-SUBS = [Sub('even', oracle, strategy=cases, budget={'quick': 9600, 'thorough': 160000}, examples=examples)]
+SUBS = [Sub('even', oracle, strategy=cases, budget={'quick': 9600, 'thorough': 160000}, examples=examples, fuzz={'thorough': 20000})]
